@@ -396,7 +396,10 @@ class SpecGen:
                 it = self.add({"k": "opt", "key": "L", "default": {"t": "const", "v": r.sample([0, 1, "a", True], r.randint(1, 2))}}, list=True)
             self.unused.remove(it)
             iterables[key] = it
-        return self.add({"k": "map", "target": target, "iterables": iterables, "values": r.random() < 0.3}, hashable=True)
+        node = {"k": "map", "target": target, "iterables": iterables, "values": r.random() < 0.3}
+        if self.cfg.get("map_partial") and r.random() < 0.5:
+            node["consume"] = "first"  # the consumer stops after the first element
+        return self.add(node, hashable=True)
 
     def g_template(self):
         r = self.rng
